@@ -84,7 +84,8 @@ Proof. unfold cw_resume. destruct (st =? ST_READY); reflexivity. Qed.
 Definition pc_wf (p : pc) : Prop :=
   match p with
   | PPokeProbe _ n f => n = 1 /\ floor_ok f = true
-  | PSigInc _ rem f | PSigPost _ rem f | PPendReq _ rem f | PPoolLoad _ rem f | PPoolLoop _ rem f _ => rem = 1 /\ floor_ok f = true
+  | PSigInc _ rem f | PSigPost _ rem f | PPendReq _ rem f | PPoolLoad _ rem f => rem = 1 /\ floor_ok f = true
+  | PPoolLoop _ rem f tc => rem = 1 /\ floor_ok f = true /\ - FLOOR_B <= tc <= RQ_MAX_PTHREAD_COUNT
   | PCreate _ rem => rem = 1
   | _ => True
   end.
@@ -98,7 +99,8 @@ Record InvC (s : gst) : Prop := {
   C_pend : pend s = cnt w_pend s;
   C_pendmax : pend s <= RQ_INT_MAX;
   C_pool : pool0 s - pool s = cnt w_pool s;
-  C_poolmin : - FLOOR_B <= pool s
+  C_poolmin : - FLOOR_B <= pool s;
+  C_p0 : pool0 s <= RQ_MAX_PTHREAD_COUNT
 }.
 
 Lemma InvC_init p0 : valid_init p0 -> InvC (init_state p0).
@@ -113,6 +115,7 @@ Proof.
   - unfold RQ_INT_MAX; lia.
   - unfold cnt; cbn; lia.
   - unfold FLOOR_B; lia.
+  - unfold RQ_MAX_PTHREAD_COUNT; lia.
 Qed.
 
 (* ---- preservation ---- *)
@@ -141,6 +144,7 @@ Proof.
   - change (pool0 s1 - pool s1 = cnt w_pool (set_pc s1 t p')). rewrite cnt_set_pc by (auto; reflexivity). rewrite Cn, Ep, E0.
     pose proof (C_pool s IC). lia.
   - exact Hpl.
+  - rewrite E0. apply (C_p0 s IC).
 Qed.
 
 Lemma invC_create s t u k : InvC s -> pcs s t = PCreate k 1 -> pcs s u = PNone -> u <> t ->
@@ -168,6 +172,7 @@ Proof.
     assert (E2 : w_pool (PCreate k 1) = kw k + 1) by reflexivity.
     assert (E3 : w_pool PWStart = 1) by reflexivity. rewrite E1, E2, E3. lia.
   - apply (C_poolmin s IC).
+  - apply (C_p0 s IC).
 Qed.
 
 Ltac b2p :=
@@ -199,9 +204,14 @@ Qed.
 Lemma s64_dec v : RQ_LONG_MIN < v <= RQ_LONG_MAX -> s64 (v - 1) = v - 1.
 Proof. unfold RQ_LONG_MIN, RQ_LONG_MAX. intros R. apply s64_id. lia. Qed.
 
+Lemma cnt_nonneg_pool s : 0 <= cnt w_pool s.
+Proof. apply tsum_nonneg. apply weights_nonneg. Qed.
+
 Ltac wfacts IC Hpc t :=
   let W := fresh "W" in pose proof (C_wf _ IC t) as W; rewrite Hpc in W; cbn in W;
-  pose proof (C_ksem _ IC); pose proof (C_sval _ IC); pose proof (C_pendmax _ IC); pose proof (C_poolmin _ IC).
+  pose proof (C_ksem _ IC); pose proof (C_sval _ IC); pose proof (C_pendmax _ IC); pose proof (C_poolmin _ IC);
+  pose proof (C_p0 _ IC); pose proof (C_pool _ IC);
+  match type of IC with InvC ?s0 => pose proof (cnt_nonneg_pool s0) end.
 Ltac fin IC Hpc :=
   match goal with
   | |- InvC (set_pc ?s1 ?t ?p) =>
@@ -229,7 +239,7 @@ Proof.
     rewrite E1 in *; kcases; fin IC Hpc ].
   (* PPoolLoop *)
   all: try solve [ match type of Hpc with _ = PPoolLoop _ _ _ _ => idtac end;
-    open_case H; destruct W as [-> Wf]; kcases;
+    open_case H; destruct W as (-> & Wf & Wtc); kcases;
     match type of Wf with floor_ok ?f = true =>
       assert (Fl : - FLOOR_B <= f <= FLOOR_B) by (clear - Wf; unfold floor_ok in Wf; b2p; lia) end;
     unfold can_request, FLOOR_B in *;
